@@ -41,6 +41,8 @@ type Scenario struct {
 	D *DrainSpec `json:"d,omitempty"`
 	// C, when set, makes this a "close while senders are parked in a send" scenario (closeblock.go).
 	C *CloseSpec `json:"c,omitempty"`
+	// M, when set, makes this a "threads started through list.map / list.each callbacks" scenario (mapspawn.go).
+	M *MapSpec `json:"m,omitempty"`
 }
 
 type ChanSpec struct {
@@ -403,6 +405,9 @@ func (s *Scenario) Render() string {
 	}
 	if s.C != nil {
 		return s.renderCloseBlock()
+	}
+	if s.M != nil {
+		return s.renderMapSpawn()
 	}
 	b := &sb{}
 	b.ln("import errors")
